@@ -14,7 +14,14 @@ def one(v):
     tmp = tempfile.mkdtemp(prefix='lltdsa-st-')
     try:
         dst = os.path.join(tmp, 'repo')
-        shutil.copytree(REPO, dst, ignore=shutil.ignore_patterns('.git', 'build', '_build'))
+        if os.path.exists(os.path.join(REPO, '.git')):
+            # the committed tree, not the working tree: a seed may be applied to /repo at this very moment (confirm_seed.sh)
+            os.makedirs(dst)
+            ar = subprocess.Popen(['git', '-C', REPO, 'archive', 'HEAD'], stdout=subprocess.PIPE)
+            subprocess.run(['tar', '-x', '-C', dst], stdin=ar.stdout, check=True)
+            ar.wait()
+        else:
+            shutil.copytree(REPO, dst, ignore=shutil.ignore_patterns('build', '_build'))
         if v.get('patch'):
             r = subprocess.run(['patch', '-p1', '-s', '-i', os.path.join(VERIF, v['patch'])], cwd=dst, capture_output=True, text=True)
             if r.returncode != 0:
